@@ -450,6 +450,8 @@ def trusted_lines():
          "      a union ↦ its byte image (little endian target): a field write stores the bytes of the value, a field read",
          "      re-packs them: u128x1 / __m128i at byte offset o ↦ CC.ofLeBytes 128 ((b.drop o).take 16), u128x2 ↦ CC.ofLeBytes 256 …,",
          "      u64 at o ↦ CC.read64le (b.drop o);  bytes of a value: BitVec 128 ↦ CC.toLeBytes x 16, BitVec 64 ↦ CC.toLe64 x, aggregates ↦ ++",
+         "      re-packing the little-endian bytes of a value at its own width gives the value (ofLe ∘ toLe = id, used when a union /",
+         "      transmute round-trips a component); two u64 images side by side read as a vector ↦ hi ++ lo, a vector read as u64s ↦ qword",
          "    references, `*x`, `.clone()`, `.into()`, `.as_slice()`, `mach.unpack(x)` ↦ the value; `&mut` parameters are threaded",
          "      (result = returned value, then the final values of the `&mut` parameters in order); Rust's `&mut` exclusivity assumed",
          "    `p as *const T` ↦ the same bytes, element size size_of::<T>();  p.offset(k) / p.add(k) ↦ byte offset + k·size_of::<T>();",
